@@ -1,4 +1,4 @@
-import PrimaiteModel.Model.FileSystem
+import PrimaiteModel.Model.FileSystemApi
 open Primaite Primaite.FileSystem
 
 /-- `~` is the empty name on the wire. -/
@@ -8,15 +8,16 @@ def sName (n : Name) : String := if n = "" then "~" else n
 def sOut : Out → String
   | .success => "success" | .failure => "failure" | .unreachable => "unreachable" | .raised => "raised"
 
-def sFile (f : File) : String := s!"#{f.id}:{sName f.name}:{showBool f.deleted}"
+def sFile (x : XState) (f : File) : String := s!"#{f.id}:{sName f.name}:{showBool f.deleted}:a{x.acc f.id}"
 def sRoutes (r : Routes) : String := "{" ++ ",".intercalate (r.map fun p => s!"{sName p.1}>#{p.2}") ++ "}"
-def sFolder (g : Folder) : String :=
-  s!"#{g.id}:{sName g.name}:{showBool g.deleted}:{g.restoreCountdown}/{g.restoreDuration}:(" ++ ",".intercalate (g.files.map sFile) ++ "):(" ++
-  ",".intercalate (g.deletedFiles.map sFile) ++ "):" ++ sRoutes g.fileRoutes
+def sFolder (x : XState) (g : Folder) : String :=
+  s!"#{g.id}:{sName g.name}:{showBool g.deleted}:{g.restoreCountdown}/{g.restoreDuration}:s{x.scanCd g.id}/{x.scanDur g.id}:(" ++
+  ",".intercalate (g.files.map (sFile x)) ++ "):(" ++
+  ",".intercalate (g.deletedFiles.map (sFile x)) ++ "):" ++ sRoutes g.fileRoutes
 
-def dump (s : State) : String :=
-  "L[" ++ ";".intercalate (s.folders.map sFolder) ++ "] D[" ++ ";".intercalate (s.deletedFolders.map sFolder) ++ "] R" ++
-  sRoutes s.folderRoutes ++ s!" c={s.numCreations} d={s.numDeletions}"
+def dump (x : XState) : String :=
+  "L[" ++ ";".intercalate (x.s.folders.map (sFolder x)) ++ "] D[" ++ ";".intercalate (x.s.deletedFolders.map (sFolder x)) ++ "] R" ++
+  sRoutes x.s.folderRoutes ++ s!" c={x.s.numCreations} d={x.s.numDeletions}"
 
 def sDescFiles (l : List (Name × Nat)) : String := "(" ++ ",".intercalate (l.map fun p => s!"{sName p.1}=#{p.2}") ++ ")"
 def sDescFolders (l : List (Name × FolderDesc)) : String :=
@@ -24,22 +25,49 @@ def sDescFolders (l : List (Name × FolderDesc)) : String :=
 def sDesc (d : Desc) : String :=
   "L" ++ sDescFolders d.folders ++ " D" ++ sDescFolders d.deletedFolders ++ s!" c={d.numCreations} d={d.numDeletions}"
 
-def parseOp : List String → Option Op
-  | ["pre"] => some .preTick
-  | ["tick"] => some .tick
-  | ws => ofRequest (ws.map pName)
+/-- A position on the wire: `L<k>` = k-th entry of the live dictionary, `D<k>` = k-th of the deleted one, else nothing. -/
+def pick {α} (live deleted : List α) (w : String) : Option α :=
+  match w.toList with
+  | 'L' :: ds => (String.ofList ds).toNat?.bind (fun k => live[k]?)
+  | 'D' :: ds => (String.ofList ds).toNat?.bind (fun k => deleted[k]?)
+  | _ => none
 
-def stepLine (s : State) : List String → State × String
-  | ["new", d] =>
-    match parseOpt String.toInt? d with
-    | some d => (init d, "ok")
-    | none => (s, "bad-op")
-  | ["dump"] => (s, dump s)
-  | ws =>
-    match parseOp ws with
-    | some op =>
-      let (s', o) := step s op
-      (s', sOut o ++ " | " ++ dump s' ++ " | " ++ sDesc (describe s'))
-    | none => (s, "bad-op")
+/-- uuid of the addressed folder / file; an address that denotes nothing becomes a uuid that was never issued. -/
+def folderAt (s : State) (w : String) : Option Folder := pick s.folders s.deletedFolders w
+def folderIdAt (s : State) (w : String) : Nat := ((folderAt s w).map (·.id)).getD (s.next + 1000)
+def fileIdAt (s : State) (wf wx : String) : Nat :=
+  match folderAt s wf with
+  | some g => ((pick g.files g.deletedFiles wx).map (·.id)).getD (s.next + 1000)
+  | none => s.next + 1000
 
-def main : IO Unit := runDriver (init none) stepLine
+def parseApi (s : State) : List String → Option ApiOp
+  | ["create", F, x, force] => some (.createFile (pName F) (pName x) (force == "1"))
+  | ["copy", F, x, G] => some (.copyFile (pName F) (pName x) (pName G))
+  | ["move", F, x, G] => some (.moveFile (pName F) (pName x) (pName G))
+  | ["add", F, x, force] => some (.addFile (pName F) (pName x) (force == "1"))
+  | ["dfid", wf, wx] => some (.deleteFileById (folderIdAt s wf) (fileIdAt s wf wx))
+  | ["dfoid", wf] => some (.deleteFolderById (folderIdAt s wf))
+  | ["rmid", wf, wx] => some (.removeFileById (folderIdAt s wf) (fileIdAt s wf wx))
+  | _ => none
+
+def answer (x' : XState) (o : Out) : String := sOut o ++ " | " ++ dump x' ++ " | " ++ sDesc (describe x'.s)
+
+def stepLine (x : XState) : List String → XState × String
+  | ["new", d, sc] =>
+    match parseOpt String.toInt? d, parseOpt String.toInt? sc with
+    | some d, some sc => (xinit d sc, "ok")
+    | _, _ => (x, "bad-op")
+  | ["dump"] => (x, dump x)
+  | ["pre"] => let r := stepX x .preTick; (r.1, answer r.1 r.2)
+  | ["tick"] => let r := stepX x .tick; (r.1, answer r.1 r.2)
+  | "api" :: ws =>
+    match parseApi x.s ws with
+    | some op => let r := stepXApi x op; (r.1, answer r.1 r.2)
+    | none => (x, "bad-op")
+  | "req" :: ws =>
+    match resolve x.s (ws.map pName) with
+    | .inl op => let r := stepX x op; (r.1, answer r.1 r.2)
+    | .inr o => (x, answer x o)
+  | _ => (x, "bad-op")
+
+def main : IO Unit := runDriver (xinit none none) stepLine
